@@ -222,7 +222,10 @@ func buildInto(m protoreflect.Message, path Path, o BuildOpts) {
 		if f.IsList() {
 			l := m.Mutable(f).List()
 			var sib protoreflect.Message
-			if o.SiblingBlob != "" {
+			if o.SiblingBlob == "empty-before" {
+				// an empty batch (no data) in front of the batch that carries the path
+				l.Append(protoreflect.ValueOfMessage(newMessage(blobMD)))
+			} else if o.SiblingBlob != "" {
 				o2 := o
 				o2.Pad, o2.PadAfter, o2.SiblingBlob = nil, nil, ""
 				o2.SetLeaf = func(c protoreflect.Message, leaf protoreflect.FieldDescriptor) {
